@@ -49,6 +49,10 @@ pub(crate) struct EmbeddedReadHandle<T: TypeConfig> {
     sm: Arc<T::SM>,
     lease: Arc<ReadLease>,
     pub(crate) cmd_tx: mpsc::Sender<d_engine_core::ClientCmd>,
+    /// Server's `read_consistency.allow_client_override`. When `false` the policy a
+    /// caller passes must be ignored, so the direct-SM fast paths (which act on the
+    /// caller's policy) are skipped and the Raft loop applies the server default.
+    allow_client_override: bool,
     _phantom: PhantomData<fn() -> T>,
 }
 
@@ -58,6 +62,7 @@ impl<T: TypeConfig> Clone for EmbeddedReadHandle<T> {
             sm: Arc::clone(&self.sm),
             lease: Arc::clone(&self.lease),
             cmd_tx: self.cmd_tx.clone(),
+            allow_client_override: self.allow_client_override,
             _phantom: PhantomData,
         }
     }
@@ -73,8 +78,18 @@ impl<T: TypeConfig> EmbeddedReadHandle<T> {
             sm,
             lease,
             cmd_tx,
+            allow_client_override: true,
             _phantom: PhantomData,
         }
+    }
+
+    /// Set the server's `allow_client_override` flag (default: `true`).
+    pub(crate) fn with_client_override(
+        mut self,
+        allowed: bool,
+    ) -> Self {
+        self.allow_client_override = allowed;
+        self
     }
 
     /// Single-key read.  Convenience wrapper around [`Self::get_batch`].
@@ -103,6 +118,12 @@ impl<T: TypeConfig> EmbeddedReadHandle<T> {
         client_id: u32,
         timeout: Duration,
     ) -> ClientApiResult<Vec<Option<Bytes>>> {
+        if !self.allow_client_override {
+            // The caller's policy must not take effect: the Raft loop serves the
+            // read under the server's default policy.
+            return self.cmd_tx_path(keys, consistency, client_id, timeout).await;
+        }
+
         match consistency {
             ReadConsistencyPolicy::EventualConsistency => {
                 if let Ok(values) = self.sm.get_multi(keys) {
